@@ -48,6 +48,21 @@ def mc_history(rng):
     return cmds
 
 
+def jc_escape(b):
+    """json-c's PLAIN serialization of a string node holding the bytes b (what json_object_to_json_string_ext(node, 0) returns)"""
+    esc = {8: b"\\b", 10: b"\\n", 13: b"\\r", 9: b"\\t", 12: b"\\f", 0x22: b'\\"', 0x5C: b"\\\\", 0x2F: b"\\/"}
+    out = bytearray(b'"')
+    for c in b:
+        if c in esc:
+            out += esc[c]
+        elif c < 0x20:
+            out += b"\\u00%02x" % c
+        else:
+            out.append(c)
+    out += b'"'
+    return bytes(out)
+
+
 def shard_fn(shard, nshards, seed, tier, exe, nhist):
     rng = random.Random("%d/%d/c11" % (seed, shard))
     sh = core.Shard()
@@ -80,6 +95,10 @@ def shard_fn(shard, nshards, seed, tier, exe, nhist):
                 # the node's own bytes handed back to it with a shorter (or the same) length: truncation in place
                 cmds.append("SSELF 0 %s" % rng.choice(["0", "1", "half", "len-1", "len", "tail", "tail", "mid"]))   # tail / mid: a later part of the own bytes that does not overlap the destination
                 plan.append(("self",))
+            elif r < 0.715 and len(model) < 3000:
+                # the node's own serialization -- text that lives in a buffer the node itself owns -- becomes its new contents
+                cmds.append("SSER 0")
+                plan.append(("sser",))
             elif r < 0.76:
                 bad = rng.choice([-1, -2, -2147483648, INT_MAX, INT_MAX - 1])
                 cmds.append("SSTR 0 x%s %d" % (b"zz".hex(), bad))
@@ -137,6 +156,10 @@ def shard_fn(shard, nshards, seed, tier, exe, nhist):
             elif c.startswith("SSTRZ"):
                 model = plan[pi][1]
                 pi += 1
+                out.append(c)
+            elif c == "SSER 0":
+                pi += 1
+                model = jc_escape(model)
                 out.append(c)
             elif c.startswith("SSELF"):
                 pi += 1
@@ -260,6 +283,11 @@ def shard_fn(shard, nshards, seed, tier, exe, nhist):
                     if ret != 1:
                         key, what = "set-failed", "set_string_len(%d bytes) returned %d" % (len(nb), ret)
                     model = nb
+            elif f[0] == "SSER":
+                if int(ln.split()[1]) != 1:
+                    key, what = "set-failed", "set_string(own serialization) returned %s" % ln.split()[1]
+                model = jc_escape(model)
+                sh.count("set.own_serialization_as_source")
             elif f[0] == "SSELF":
                 n = int(f[2])
                 off = int(f[3]) if len(f) > 3 else 0
